@@ -35,3 +35,25 @@ package ip
 //@ iface github.com/oauth2-proxy/oauth2-proxy/v7/pkg/apis/ip.RealClientIPParser.GetRealClientIP
 //@ prop C15 C16
 //@ nomod
+
+// ------------------------------------------------------------------ C15: parsing a configured network reads its argument only
+//@ func ParseIPNet
+//@ nomod
+//@ prop C15
+//@ ensures[a-network-or-nil] true
+
+// the set only ever changes its own tables (slices behind the two table pointers, their elements and hash sets)
+//@ func (*NetSet).AddIPNet
+//@ prop C15
+//@ modifies cells elems maps
+//@ ensures[frame-only] true
+
+//@ func (*NetSet).Has
+//@ prop C15
+//@ nomod
+//@ ensures[frame-only] true
+
+//@ func NewNetSet
+//@ prop C15
+//@ fresh
+//@ ensures[a-new-empty-set] result != nil
